@@ -18,6 +18,7 @@ LEVEL_TEXT_EXTRA = {
 }
 
 NOT_APPLICABLE = {
+    "C01": "needs client_handler together with Request::from_stream (Kani cannot finish symbolic execution of the parser even on a concrete request: io::Error/dyn Error drop glue, BufReader, String building), the response serialiser (format!, header sort) and a scripted socket; a loop-logic-only version would stub 7+ functions including parser and serialiser, leaving little of the real code under check, and was not built (DESIGN §6); the tokio twin is not encodable",
     "C06": "file-system confinement: the property is about what metadata/canonicalize/File::open return (FFI, symlinks, OS path semantics); the only solver-sized kernel sits behind percent_decode and format! which Kani cannot symbolically execute within reach (DESIGN §2, §6)",
     "C08": "quantifies over interleavings of OS threads, mpsc channels, Mutex poisoning and unwinding panics; Kani rejects thread::spawn and has no unwinding; an SMT model of the protocol would not be the real code (DESIGN §6)",
     "C12": "one 160-line run loop over real sockets, HashMap<SocketAddr,_>, sleep/Instant, two channels and a thread pool; exactly-once/ordering under timing is not a bounded computation over values and no smaller unit exists to drive (DESIGN §6)",
@@ -86,7 +87,7 @@ def build():
         "hooks": {"guard": "cargo feature `verif` (humphrey, humphrey_ws, humphrey_server)",
                   "enable": "the harness crate /verif/kani depends on the /repo crates by path with features=[\"verif\"]",
                   "baseline_off_cmd": "cd /repo && cargo test --workspace --no-fail-fast --offline",
-                  "source_commits": ["76493fa", "9401876", "a144de1"], "add_only": True},
+                  "source_commits": ["76493fa", "9401876", "a144de1", "0871fde"], "add_only": True},
         "engines": engines,
         "checks": checks,
         "not_applicable": na,
